@@ -125,7 +125,15 @@ func MarshalInputToOptions(input protoiface.MarshalInput) proto.MarshalOptions {
 }
 
 func UnmarshalInputToOptions(input protoiface.UnmarshalInput) proto.UnmarshalOptions {
+	// input.Depth counts the message being decoded; what is left is the budget of its
+	// children. proto.UnmarshalOptions reads a zero RecursionLimit as "use the default",
+	// so an exhausted budget is handed down as a negative limit.
+	limit := input.Depth - 1
+	if limit <= 0 {
+		limit = -1
+	}
 	return proto.UnmarshalOptions{
+		RecursionLimit:    limit,
 		NoUnkeyedLiterals: input.NoUnkeyedLiterals,
 		// nested targets are either freshly allocated by the generated code or already hold
 		// data that a repeated occurrence of the field must be merged into, never reset
@@ -140,4 +148,5 @@ var (
 	ErrInvalidLength        = fmt.Errorf("proto: negative length found during unmarshaling")
 	ErrIntOverflow          = fmt.Errorf("proto: integer overflow")
 	ErrUnexpectedEndOfGroup = fmt.Errorf("proto: unexpected end of group")
+	ErrRecursionDepth       = fmt.Errorf("proto: exceeded max recursion depth")
 )
